@@ -621,6 +621,8 @@ class Interp:
             if "str" in c:
                 return ("str", c["str"])
             if "def" in c:
+                if "evalrepr" in c:
+                    return ("constitem", c["def"], c["evalrepr"])
                 return ("constitem", c["def"])
             r = c.get("repr")
             if r == "()":
@@ -828,6 +830,12 @@ class Interp:
         if not signed:
             self.type_range(st, a, oty)
             self.type_range(st, b, oty)
+        if base == "Add" and bits >= 64:
+            # a closure-private counter (starts at a constant, only the closure changes it) plus a small constant:
+            # 2^64 invocations would be needed
+            for x, y in ((a, b), (b, a)):
+                if isinstance(x, tuple) and x and x[0] == "counter" and isinstance(y, int) and 0 <= y <= 1024:
+                    return "safe"
         if base == "Sub" and not signed:
             d = self.decide_cmp(st, "Ge", a, b, oty)
             if d is True:
@@ -1296,6 +1304,21 @@ class Interp:
                     cv = a
                     if isinstance(cv, Ref):
                         cv = self.read_addr(st, cv.root, cv.path)
+                    if isinstance(cv, ClosureV) and cv.kind == "coroutine" and cv.path in self.facts.bodies and self.explore_callbacks:
+                        cb = self.facts.bodies[cv.path]
+                        nxt = []
+                        for s_, r_ in results:
+                            self.ctx.append("spawned:" + ev_name + "|" + cb.path)
+                            try:
+                                got = [(s2, r2) for s2, r2 in self.call_body(cb, [cv, ("cx",)], s_.fork(), depth + 1)]
+                            finally:
+                                self.ctx.pop()
+                            for s2, cret in got:
+                                if s2.cut and s2.cut.startswith("loop"):
+                                    s2.cut = None
+                                nxt.append((s2, r_))
+                        results = nxt or results
+                        continue
                     if isinstance(cv, ClosureV) and cv.kind == "closure" and cv.path in self.facts.bodies and self.explore_callbacks:
                         cb = self.facts.bodies[cv.path]
                         nargs = max(cb.arg_count - 1, 0)
@@ -1311,7 +1334,7 @@ class Interp:
                                 if fnmut and cv.caps:
                                     # the callee may call an FnMut closure any number of times: second visit with
                                     # its by-value captured state unknown
-                                    hv = ClosureV(cv.path, [c_ if isinstance(c_, Ref) else ("captured", cv.path.split("::")[-2], i_) for i_, c_ in enumerate(cv.caps)], cv.kind)
+                                    hv = ClosureV(cv.path, [c_ if isinstance(c_, Ref) else (("counter", cv.path.split("::")[-2], i_) if isinstance(c_, int) else ("captured", cv.path.split("::")[-2], i_)) for i_, c_ in enumerate(cv.caps)], cv.kind)
                                     again = self.invoke(s2, hv, cargs, depth, site, label="callback-again:" + ev_name)
                                     for s3, _c3 in again:
                                         if s3.cut and s3.cut.startswith("loop"):
@@ -1574,6 +1597,47 @@ def m_option_map(I, st, t, args, site, depth):
     return out
 
 
+def m_ok_or(I, st, t, args, site, depth):
+    out = []
+    for s2, var, payload in split_option(I, st, args[0]):
+        if var == "Some":
+            out.append((s2, Ok(payload)))
+        elif t.callee.name == "ok_or":
+            out.append((s2, Err(args[1])))
+        else:
+            for s3, r in I.invoke(s2, args[1], [], depth, site):
+                out.append((s3, Err(r)))
+    return out
+
+
+def m_result_ok(I, st, t, args, site, depth):
+    out = []
+    for s2, var, payload in split_result(I, st, args[0]):
+        out.append((s2, Some(payload) if var == "Ok" else NoneV()))
+    return out
+
+
+def m_option_and_then(I, st, t, args, site, depth):
+    out = []
+    for s2, var, payload in split_option(I, st, args[0]):
+        if var == "Some":
+            for s3, r in I.invoke(s2, args[1], [payload], depth, site):
+                out.append((s3, r))
+        else:
+            out.append((s2, NoneV()))
+    return out
+
+
+def m_is_variant(I, st, t, args, site, depth):
+    v = deref_arg(I, st, args[0])
+    want = {"is_some": "Some", "is_none": "None", "is_ok": "Ok", "is_err": "Err"}[t.callee.name]
+    if t.callee.name in ("is_some", "is_none"):
+        cases = split_option(I, st, v)
+    else:
+        cases = split_result(I, st, v)
+    return [(s2, 1 if var == want else 0) for s2, var, _pl in cases]
+
+
 def m_try_branch(I, st, t, args, site, depth):
     out = []
     v = args[0]
@@ -1790,6 +1854,14 @@ DEFAULT_MODELS = {
     "std::result::Result::map_err": m_result_map_err,
     "std::result::Result::and_then": m_result_and_then,
     "std::option::Option::map": m_option_map,
+    "std::option::Option::and_then": m_option_and_then,
+    "std::option::Option::ok_or": m_ok_or,
+    "std::option::Option::ok_or_else": m_ok_or,
+    "std::result::Result::ok": m_result_ok,
+    "std::option::Option::is_some": m_is_variant,
+    "std::option::Option::is_none": m_is_variant,
+    "std::result::Result::is_ok": m_is_variant,
+    "std::result::Result::is_err": m_is_variant,
     "std::ops::Try::branch": m_try_branch,
     "std::ops::FromResidual::from_residual": m_from_residual,
     "std::future::IntoFuture::into_future": m_identity,
